@@ -274,3 +274,19 @@ Print Assumptions C02_bitsem_tsem_array_read.
 Theorem C02_bitsem_tsem_array_write_out_of_bounds : ltac:(let T := type of tsem_array_write_out_of_bounds in exact T).
 Proof. exact tsem_array_write_out_of_bounds. Qed.
 Print Assumptions C02_bitsem_tsem_array_write_out_of_bounds.
+
+(* ------------------------------------------------------------------ "a panic once raised is never
+   dropped or overwritten by code that runs afterwards", for the WHOLE language at the level of the
+   bit-level semantics: any run of an expression / block / statement / pattern that starts with a
+   recorded panic ends with exactly that panic (no typing or fragment hypothesis: match arms,
+   join loops, calls, assignments through accessors included).  With
+   C01_circuit_computes_bit_semantics this holds for the emitted circuits on all inputs. *)
+From GV Require Import Compile.TSemSticky.
+
+Theorem C02_recorded_panic_is_never_lost : forall P fuel x,
+  (forall e E w E' o', lower_expr tops fuel P e E (Some x) = Ok ((w, E'), o') -> o' = Some x) /\
+  (forall b E w E' o', lower_block tops fuel P b E (Some x) = Ok ((w, E'), o') -> o' = Some x) /\
+  (forall s E w E' o', lower_stmt tops fuel P s E (Some x) = Ok ((w, E'), o') -> o' = Some x) /\
+  (forall p mw E c E' o', lower_pattern tops fuel P p mw E (Some x) = Ok ((c, E'), o') -> o' = Some x).
+Proof. exact tsem_sticky_all. Qed.
+Print Assumptions C02_recorded_panic_is_never_lost.
